@@ -105,6 +105,9 @@ func (b *Backend) NewServer(opts ...server.OpenFGAServiceV1Option) *server.Serve
 	return s
 }
 
+// Disown tells the backend that somebody else (a server built by hand) closes the datastore.
+func (b *Backend) Disown() { b.owned = false }
+
 // CleanupRoot removes the scratch directory of a driver if it is empty or only holds leftovers.
 func CleanupRoot(root string) { os.RemoveAll(root) }
 
